@@ -25,6 +25,7 @@ import (
 	"strconv"
 	"strings"
 	"sync"
+	"sync/atomic"
 	"time"
 
 	"github.com/spiffe/go-spiffe/v2/bundle/x509bundle"
@@ -134,6 +135,65 @@ func csrPublicKey(csrDER []byte) (any, string, error) {
 
 var errIssuer = errors.New("scripted issuer failure")
 
+// answer: what the issuer callback returns for one scripted outcome. Failure kinds: "err" the
+// issuer reports an error; "empty" it returns no certificate; "noid" a certificate without a
+// SPIFFE ID; "both" a perfectly good chain TOGETHER with an error (the error wins: the fetch
+// failed); "ta" (only with a directory configured, otherwise as "err") a good chain, but the
+// trust-anchor lookup inside the same fetch fails.
+func answer(ca *harnessCA, ta *fakeTA, usedir bool, pub any, idx, now int64, o c19Out) ([]*x509.Certificate, error) {
+	if o.Ok {
+		leaf, err := ca.issue(pub, idx, time.Unix(0, now+o.Dnb).UTC(), time.Unix(0, now+o.Dna).UTC(), true)
+		if err != nil {
+			return nil, err
+		}
+		return []*x509.Certificate{leaf, ca.cert}, nil
+	}
+	good := func(withID bool) ([]*x509.Certificate, error) {
+		leaf, err := ca.issue(pub, idx, time.Unix(0, now).UTC().Add(-time.Minute), time.Unix(0, now).UTC().Add(24*time.Hour), withID)
+		if err != nil {
+			return nil, err
+		}
+		return []*x509.Certificate{leaf, ca.cert}, nil
+	}
+	switch o.Fail {
+	case "empty":
+		return nil, nil
+	case "noid":
+		return good(false)
+	case "both":
+		chain, err := good(true)
+		if err != nil {
+			return nil, err
+		}
+		return chain, errIssuer
+	case "ta":
+		if usedir {
+			ta.failOnce()
+			return good(true)
+		}
+		return nil, errIssuer
+	default:
+		return nil, errIssuer
+	}
+}
+
+// hangBudget: the first few observed hangs of a process get the long liveness deadline
+// ("has not completed for several seconds"); once a run has that many confirmed hangs it is a
+// violation anyway and later waits are short, so a tree on which every case hangs still
+// finishes in a minute or two.
+var hangBudget atomic.Int32
+
+func init() { hangBudget.Store(3) }
+
+func livenessDeadline() time.Duration {
+	if hangBudget.Load() > 0 {
+		return 6 * time.Second
+	}
+	return 200 * time.Millisecond
+}
+
+func noteHang() { hangBudget.Add(-1) }
+
 // ---------------------------------------------------------------------------------------
 // logger: every method is a schedule-free hook (called synchronously by the code under test)
 
@@ -169,8 +229,17 @@ func (l *hookLogger) Fatalf(string, ...interface{})             { l.call() }
 // trust anchors: a version counter; the PEM bundle names the version
 
 type fakeTA struct {
-	mu  sync.Mutex
-	ver int64
+	mu       sync.Mutex
+	ver      int64
+	failNext bool // the next CurrentTrustAnchors call fails (scripted fault inside a fetch)
+}
+
+var errTA = errors.New("scripted trust-anchor failure")
+
+func (t *fakeTA) failOnce() {
+	t.mu.Lock()
+	t.failNext = true
+	t.mu.Unlock()
 }
 
 func (t *fakeTA) bump() {
@@ -188,6 +257,13 @@ func (t *fakeTA) version() int64 {
 func taBytes(ver int64) []byte { return []byte(fmt.Sprintf("trust-anchors-version %d\n", ver)) }
 
 func (t *fakeTA) CurrentTrustAnchors(context.Context) ([]byte, error) {
+	t.mu.Lock()
+	fail := t.failNext
+	t.failNext = false
+	t.mu.Unlock()
+	if fail {
+		return nil, errTA
+	}
 	return taBytes(t.version()), nil
 }
 func (t *fakeTA) Watch(ctx context.Context, _ chan<- []byte) { <-ctx.Done() }
